@@ -214,20 +214,47 @@ func runWorker(bin string, j job, gomaxprocs int, extraEnv ...string) workerResu
 	if j.Deadline > 0 {
 		limit = time.Until(time.Unix(j.Deadline, 0)) + 90*time.Second
 	} else if j.PlanFile != "" {
-		limit = 60 * time.Second
+		limit = 35 * time.Second
 	}
 	var res workerResult
 	err := cmd.Start()
 	if err == nil {
 		done := make(chan error, 1)
 		go func() { done <- cmd.Wait() }()
-		select {
-		case err = <-done:
-		case <-time.After(limit):
-			cmd.Process.Kill()
-			<-done
-			res.watchdog = true
-			err = fmt.Errorf("watchdog")
+		start := time.Now()
+		tick := time.NewTicker(2 * time.Second)
+		defer tick.Stop()
+	wait:
+		for {
+			select {
+			case err = <-done:
+				break wait
+			case <-tick.C:
+				stuck := time.Since(start) > limit
+				if !stuck && j.Current != "" {
+					// the worker rewrites this file before every execution; an execution takes
+					// milliseconds, and a deadlock in the code under test is reported by the
+					// worker itself after 43 s: a plan current for much longer means the code
+					// under test is spinning (no goroutine yields, so nothing inside the worker
+					// can notice)
+					if st, e := os.Stat(j.Current); e == nil && time.Since(st.ModTime()) > 75*time.Second {
+						stuck = true
+					}
+				}
+				if stuck {
+					// ask the runtime for all stacks (SIGQUIT), then make sure it is gone
+					cmd.Process.Signal(syscall.SIGQUIT)
+					select {
+					case <-done:
+					case <-time.After(10 * time.Second):
+						cmd.Process.Kill()
+						<-done
+					}
+					res.watchdog = true
+					err = fmt.Errorf("watchdog")
+					break wait
+				}
+			}
 		}
 	}
 	if f, e := os.Open(j.Out); e == nil {
@@ -294,8 +321,54 @@ func runPlanOnce(bin string, p *plan.Plan, dir string, tag string, dump bool) (r
 	return &res.recs[0], false, res.stderr
 }
 
+// spinSite: the worker was stopped with SIGQUIT because it made no progress; if the
+// goroutine that was running at that moment is inside tacquito code (first frame outside
+// the Go distribution), return that source position.
+func spinSite(stderr string) string {
+	k := strings.Index(stderr, "SIGQUIT: quit")
+	if k < 0 {
+		return ""
+	}
+	for _, blk := range strings.Split(stderr[k:], "\n\n") {
+		lines := strings.Split(blk, "\n")
+		hd := ""
+		for _, l := range lines {
+			if strings.HasPrefix(l, "goroutine ") {
+				hd = l
+				break
+			}
+		}
+		if !strings.Contains(hd, "[running") && !strings.Contains(hd, "[runnable") {
+			continue
+		}
+		for _, l := range lines {
+			l = strings.TrimSpace(l)
+			if !strings.HasPrefix(l, "/") || strings.Contains(l, "/go1.26.8/") {
+				continue
+			}
+			if i := strings.LastIndex(l, "/repo/"); i >= 0 && !strings.Contains(l, "tqsim") {
+				site := l[i+len("/repo/"):]
+				if sp := strings.IndexAny(site, " +"); sp > 0 {
+					site = site[:sp]
+				}
+				// line numbers inside a loop vary with the instant of the signal
+				if c := strings.LastIndex(site, ":"); c > 0 {
+					site = site[:c]
+				}
+				return site
+			}
+			break
+		}
+	}
+	return ""
+}
+
 // deathSig classifies a worker death by its stderr.
 func deathSig(prop, stderr string) violation {
+	if site := spinSite(stderr); site != "" {
+		class := prop + "/worker-death"
+		return violation{Property: prop, Class: class, Sig: class + ":spin:" + site, Detail: "code under test does not return: it was still running in " + site + " when the worker was stopped for making no progress"}
+	}
 	line := "worker process died"
 	site := ""
 	lines := strings.Split(stderr, "\n")
@@ -462,10 +535,15 @@ func check(prop string, args []string) int {
 						last = r.Run
 					}
 				}
+				if res.watchdog && spinSite(res.stderr) != "" && len(res.current) > 0 {
+					// the code under test was running (not waiting) in a tacquito frame all
+					// that time: a verdict on the plan being executed, not harness trouble
+					res.watchdog = false
+				}
 				if res.watchdog {
 					watchdogs++
 				}
-				killed := res.died && !res.watchdog && !strings.Contains(res.stderr, "panic:") && !strings.Contains(res.stderr, "fatal error:") && !strings.Contains(res.stderr, "DATA RACE")
+				killed := res.died && !res.watchdog && !strings.Contains(res.stderr, "panic:") && !strings.Contains(res.stderr, "fatal error:") && !strings.Contains(res.stderr, "DATA RACE") && spinSite(res.stderr) == ""
 				if killed {
 					// ended by a signal (e.g. the kernel's OOM killer) without any report of
 					// its own: an incident of the environment, not a verdict on the run
